@@ -8,15 +8,15 @@ PROPS = [json.loads(l) for l in open(os.path.join(VERIF, "properties.jsonl"))]
 # property id -> (technique, level text, level note, design ref)
 CHECKS = {
  "C01": ("AST/CFG dataflow: def-use closure of recipients, dominating-guard truth tables (destination filter, range gates), dispatch exhaustiveness per message-type branch, store-effect scan on the forwarded header",
-         "All armed necessary conditions of the routing predicate hold on every path/site of forward_message/process_message in the current tree (recipient source, destination filter, range gates, pass-through, dispatch exhaustiveness, <=1 send per iteration). It is a structural decision over all paths of the code, not over all histories.",
+         "All armed necessary conditions of the routing predicate hold on every path/site of forward_message/process_message in the current tree (recipient source, destination filter, range gates, pass-through, dispatch exhaustiveness, <=1 send per iteration, no double registration under arbitrary control frames, readiness poll over every connection, recipient collection narrowed only by the destination filter, header layout agnosticism). It is a structural decision over all paths of the code, not over all histories.",
          "Decides the routing decision structure only; delivery over histories, OS readiness and payload sizes are runtime values and not decided. Assumes C02's index invariant for duplicate-freeness.", "DESIGN.md §2 C01"),
  "C05": ("who-may-call + must-precede/must-follow/count-on-paths over the CFG of the frame writers; transitive header-length/payload pairing over the call graph",
          "Ownership and ordering facts that make frames whole and sequence numbers contiguous hold at every site/path: sole socket writers, sendall header-then-payload, +1 exactly once stamped before the header write, declared length tied to the payload at every transitive call site, single thread of control.",
          "Trusts sendall/TCP; receiver types come from the repository's annotations.", "DESIGN.md §2 C05"),
- "C07": ("registration/erasure pairing discovered from container stores, must-follow on remove_module's CFG, who-may-call on close/send_client_close, funnel check of every departure detector",
-         "Every container that registers a Module/socket is emptied by remove_module on every normal path; every departure detector funnels into remove_module exactly once; nothing else closes a client socket; exactly one CLIENT_CLOSED per removal; write-failure handlers keep the recipient loop going.",
+ "C07": ("registration/erasure pairing discovered from container stores, must-follow on remove_module's CFG, who-may-call on close/send_client_close, funnel check of every departure detector (receive coverage through call chains); value-keyed index erasure under registration evidence; per-iteration liveness facts in delivery loops",
+         "Every container that registers a Module/socket is emptied by remove_module on every normal path; every departure detector funnels into remove_module exactly once; nothing else closes a client socket; exactly one CLIENT_CLOSED per removal; write-failure handlers keep the recipient loop going and no recipient removed earlier in the same delivery is written to; an index keyed by a client-chosen value is erased only on evidence that the departing module registered it.",
          "'Reusable immediately' as observed by a reconnecting client is timing and not decided; relies on C02-I3 (Module.subs is the inverse index).", "DESIGN.md §2 C07"),
- "C14": ("path classification of the per-subscriber loop with edge-filtered guard states; sibling agreement of write-failure handlers; exhaustiveness of the recursion guard against core_defs constants",
+ "C14": ("path classification of the per-subscriber loop with edge-filtered guard states; sibling agreement of write-failure handlers; exhaustiveness of the recursion guard against core_defs constants; guard facts on every exit of send_failed_message that bypasses the publication",
          "Every path through one subscriber iteration sends, reports or is ineligible; all write-failure handlers remove+report with the right arguments; not-ready loggers are waited for, only non-loggers dropped; the recursion guard covers FAILED_MESSAGE and every RTMA_LOG* constant found in core_defs; the notice carries recipient id and full header copy.",
          "Which sockets the OS reports writable is a runtime schedule and not decided.", "DESIGN.md §2 C14"),
  "C19": ("per-message-type branch extraction from guard states of process_message's CFG; count-on-paths of send_ack per branch; call-closure exclusion; who-may-call; store/dominance checks in send_ack",
@@ -25,14 +25,14 @@ CHECKS = {
  "C06": ("swap detector over resolved call sites (argument/parameter binding), def-use flow of options into CONNECT fields and Module attributes, dominating-guard truth tables (integer theory) on connect_module, per-iteration back-edge guard facts of the uniqueness loop, interval check of the dynamic cursor",
          "Options bind to the parameters they are named after at every resolved call site; each option reaches the same-named wire field and Module attribute; connected=True is dominated by the range test and the completed uniqueness loop (id and name refusals) or an id from assign_module_id whose returns are dominated by `not in current ids`; the client adopts the acknowledged id.",
          "Wrap-around of the dynamic cursor over long histories is arithmetic over unbounded histories and only decided as an interval invariant. The 100-vs-99 boundary disagreement between client and manager is an observation, not armed.", "DESIGN.md §2 C06"),
- "C08": ("count-on-paths of drains between header read and each decode-error raise, must-precede of the connected-flag clear before every ConnectionLost raise, try/handler ownership of every socket primitive, dominating-guard truth tables for the subscription filter and the size/version rejection conditions, store scan on the received objects",
+ "C08": ("count-on-paths of drains between header read and each decode-error raise, must-precede of the connected-flag clear before every ConnectionLost raise, try/handler ownership of every socket primitive, dominating-guard truth tables for the subscription filter and the size/version rejection conditions, store scan on the received objects; must-follow of blocking-mode restoration after any timeout set on the client socket; guard facts at every direct ConnectionLost raise",
          "Exactly one frame is consumed on every path of _read_message (one drain before each decode-error raise, none on success, payload read under size equality); ConnectionLost always follows _connected=False and every socket primitive converts ConnectionError; read_message returns only under the subscription filter; version/size rejections are exact; bytes are received into the returned objects.",
          "MSG_WAITALL / OS socket semantics trusted; 'server closes at every byte offset' is not enumerated, only the flag/raise discipline is decided.", "DESIGN.md §2 C08"),
  "C02": ("abstract interpretation of the client/manager subscription functions over symbolic message types (data-independence abstraction), exhaustive BFS of the abstract (client, manager) state space; plus a syntactic mutate-while-iterating rule",
          "Exhaustive over the abstract space: every reachable (client, manager) subscription state x every public operation x every argument list over {ALL, a, b[, c]} satisfies I1 agreement, I2 paused-not-delivered, I3 index consistency, I4 refusal under subscribe-all, I5 scoped restore. Transformers are read from the current source on every run; uses of message types other than ==/in abort the analysis.",
          "Sound for the set semantics under the data-independence argument (types only compared for equality/membership - enforced). Assumes in-order one-at-a-time processing of control frames (C05/C19). List-position effects inside an argument list are covered by interpreting lists with CPython index semantics up to length 3.", "DESIGN.md §2 C02"),
- "C04": ("table agreement across sibling back ends (key sets, width/signedness through frozen target-language vocabularies and validators.py class constants), structural check of every field-walk loop, attribute-read agreement of sibling emitters, wiring of generate() loops",
-         "The native-type tables of the parser, its ctypes mapper and the four back ends agree on keys, width and signedness (157 comparisons); every struct/message generator walks <def>.fields once, in order, unfiltered; id/constant/hash emitters read the same attributes and every table is wired to its emitter; recorded size = sum of field sizes.",
+ "C04": ("table agreement across sibling back ends (key sets, width/signedness through frozen target-language vocabularies and validators.py class constants), structural check of every field-walk loop, attribute-read agreement of sibling emitters, wiring of generate() loops; light taint of the unevaluated yaml expression text into back-end f-strings; path facts of MessageMeta's descriptor collection loop",
+         "The native-type tables of the parser, its ctypes mapper and the four back ends agree on keys, width and signedness (157 comparisons); every struct/message generator walks <def>.fields once, in order, unfiltered; id/constant/hash emitters read the same attributes and every table is wired to its emitter; recorded size = sum of field sizes; emitted extents/values are the parser's evaluated numbers, never the yaml text; the Python metaclass lays out every descriptor in declaration order.",
          "sizeof/offsetof as laid out by a real C compiler and JS/MATLAB runtime representation need compiling generated output (execution) and are not decided; stand-in: C04-W + C11 + C16-A.", "DESIGN.md §2 C04"),
  "C09": ("MRO-resolved enumeration of validator classes; edge-filtered guard states (validate-before-write on every path, per write effect); reachability for atomicity; must-follow on the exceptional continuation of `yield`; who-may-write on the ContextVar; constant folding of the bounds table",
          "Every write effect of every __set__/__setitem__ is reached only after validation of the same value, or with validation off, or via own-ctype/delegation; no write precedes a validation; validate_many quantifies over all elements (order statistics only after an all-int check); the disable block restores the flag on exceptional exit; single flag writer; bounds equal 2**bits arithmetic.",
@@ -40,28 +40,28 @@ CHECKS = {
  "C10": ("structural rules: result-expression grammar of copy(); dominating-guard truth table in Message.from_json; ordered case-list agreement between _to_dict and _from_dict",
          "Decides only the clauses with a code-shape core: copies are built exclusively with from_buffer_copy; the JSON data decode is dominated by version == 0 or version == local hash; encoder and decoder classify field types by the same ordered tests, encoder-only cases being int-list producers.",
          "The headline clause - bytes -> dict/JSON -> bytes is the identity for every value - is round-trip equality over values and is NOT decided by static analysis.", "DESIGN.md §2 C10, §3"),
- "C11": ("mutation scan of the field list in check_alignment, dominating guards of padding constructions, must-precede of validation before registration, guard facts at validate_msg_def's normal exits; thorough: independent natural-layout recomputation of every shipped definition",
-         "Decides the non-arithmetic clauses: padding only inserts self-built `char` fields and never reorders/resizes/drops user fields; every padding construction is dominated by auto_pad; every registered definition passed validate_msg_def, which rejects size > 65535 on every normal exit and runs check_alignment exactly under validate_alignment.",
-         "That every offset is a multiple of its alignment for every field sequence is numerical behaviour of a loop and is NOT decided; the thorough tier's layout recomputation validates shipped artefacts only.", "DESIGN.md §2 C11, §3"),
+ "C11": ("mutation scan of the field list in check_alignment, dominating guards of padding constructions, must-precede of validation before registration, guard facts at validate_msg_def's normal exits; abstract interpretation of check_alignment's current source over a family of field sequences complete for its control decisions (offset read only through ptr mod 8); thorough: independent natural-layout recomputation of every shipped definition",
+         "Padding only inserts self-built `char` fields and never reorders/resizes/drops user fields; every padding construction is dominated by auto_pad; every registered definition passed validate_msg_def, which rejects size > 65535 on every normal exit and runs check_alignment exactly under validate_alignment; C11-N: for every residue of the running offset mod 8 and every (alignment, element size, length) class of the next one or two fields, user fields land on their natural C offsets, only char padding is inserted, size and recorded alignment are the natural ones, and with auto_pad off a definition is accepted iff it needs no padding (1216 interpreted runs quick, ~17000 thorough).",
+         "The arithmetic clause is decided by interpreting the function over a finite family shown complete for its decisions (argument in DESIGN §7.1 C11-N); that a C compiler produces the natural layout is trusted.", "DESIGN.md §2 C11, §3"),
  "C12": ("must-precede of check_duplicate_name / validator loops before every registry store (CFG), sibling agreement of namespace tuples, call-graph acceptance of indirect registrars, who-may-call parse_text, attribute-set agreement of __init__ and clear",
          "Every store into a shared name table is preceded on every path by a duplicate-name check over all five tables; every id registry store by its whole-registry duplicate loop and range test; reserved ranges are inclusive and fully registered; a file is recorded (resolved path) before parsing and parse_text is only reachable through parse_file; registries are per instance and cleared on failure.",
          "Symlink/case aliasing of import paths is filesystem semantics and not decided.", "DESIGN.md §2 C12"),
  "C13": ("backward information-flow closure of the sha256 argument to its roots (must-include / must-exclude), constructor-argument check, slice/decoration check of every hash emission site, edge-filtered guard states for the version stamp",
          "The hashed text depends on exactly name, id and the in-order field name/type pairs at all three hashing sites; the stored digest is that digest; every back end prints hash[:8]; send_message stamps header.version before the header is sent on every path but the documented legacy one; version aliases the reserved wire field.",
          "Collision-freeness of the 32-bit prefix is not claimed; sha256 and insertion-ordered dicts trusted.", "DESIGN.md §2 C13"),
- "C15": ("reference relation extracted from the front end vs emission order extracted from each generate() with frozen per-language eagerness; template lints of the JavaScript f-strings; return-annotation based branch type agreement; dispatch totality",
+ "C15": ("reference relation extracted from the front end vs emission order extracted from each generate() with frozen per-language eagerness; template lints of the JavaScript f-strings; return-annotation based branch type agreement; dispatch totality (through delegation); working-directory and once-only (resolved path) discipline of parse_file; reserved field names and descriptor constructor preconditions",
          "Every eager cross-section reference points to an earlier section (6 recorded known findings for Python/C/MATLAB); JS aliases are callables in the namespace fields read, namespaces exist before use, arrays are built per element; get_ctype_cls branches all yield ctypes types; every per-type dispatch covers the four kinds and raises otherwise.",
          "That generated text is accepted by CPython/gcc/node/MATLAB is execution of generated artefacts and not decided; the findings were confirmed once by running the real compiler (findings/c15_generated_outputs.py).", "DESIGN.md §2 C15"),
  "C16": ("usage-context classification of every nondeterminism-source call in parser/compile/back ends; section mirroring check in parse_text; exhaustive artefact agreement between shipped YAML (data) and shipped generated module (AST) with independent constant evaluator, sha256 recomputation and natural-layout calculator",
          "No time/random/pid/cwd/absolute-path/id()/hash()/set-order value can reach emitted text; every parsed section is mirrored into the combined YAML (repeatable `_RESERVED_` merged); core_defs.py agrees with core_defs.yaml + imports on every constant, alias, id, type_def, recomputed type_hash, descriptor sequence and natural size (445 comparisons, exhaustive over the shipped files; thorough adds tests/ and examples/ pairs: 3060).",
          "Byte-identity of two real runs and the YAML emitter/loader round trip need execution and are not decided; black trusted deterministic.", "DESIGN.md §2 C16"),
- "C03": ("interprocedural taint from received header/payload fields, counter key sets and the connection count to partial primitives (recv size, fixed-array index, ASCII decode) with dominating-guard truth tables (integer theory); bottom-up may-mutate summaries over the call graph (incl. the logging -> send_message edge) against every loop over a manager container; typestate of removed modules in snapshot loops; handler coverage of socket sites",
+ "C03": ("interprocedural taint from received header/payload fields, counter key sets and the connection count to partial primitives (recv size, fixed-array index, ASCII decode) with dominating-guard truth tables (integer theory); bottom-up may-mutate summaries over the call graph (incl. the logging -> send_message edge) against every loop over a manager container; receive-size bounds judged at the call sites of a receive helper; termination of receive-completion loops on a 0-byte result; typestate of removed modules in snapshot loops; handler coverage of socket sites",
          "None of the enumerated crash channels into the uncaught region of run() is open: every client-controlled operand of a partial primitive is bounded by a dominating guard or handler, no loop over a live manager container can have it mutated by its own body and iterate again, snapshot loops re-establish liveness and remove_module is idempotent, every socket operation is covered by a removing ConnectionError handler.",
          "This is NOT 'the manager cannot crash': no sound may-raise analysis exists for Python; only the listed partial primitives and channels are decided. Seven defects found by these rules were repaired (known_findings.json, findings/c03_crash_channels.py).", "DESIGN.md §2 C03"),
  "C17": ("thread-role derivation from the Thread target over the call graph; who-may-access classification of the two buffers; evidence-edge reachability (staging only after `not is_set()` or a completed wait); per-iteration must-precede of the Event operations; structural finalisation order",
          "Decides the hand-off discipline of the double buffer (necessary conditions, each with the interleaving that breaks the property when the rule is broken): buffer ownership by role, fresh-list swap, staging only on evidence of a completed hand-off, stage+clear-finished before token, write before both signals, finished published before the token is released, append-before-flush under the selection guard, stop/finalise/close order of data sets and formatters.",
          "Exactly-once / in-order over ALL interleavings is a model-checking problem and is NOT decided by this family; file contents and quick-logger offset arithmetic are not decided.", "DESIGN.md §2 C17, §3"),
- "C18": ("who-may-write and dominating-guard checks on the counters; read-then-reset ordering with call-graph forwarding closure; abstract interpretation of send_traffic over symbolic (type, count) entries for table sizes around 0, K, 2K, 3K",
+ "C18": ("who-may-write and dominating-guard checks on the counters; read-then-reset ordering with call-graph forwarding closure; abstract interpretation of send_traffic over symbolic (type, count) entries for table sizes around 0, K, 2K, 3K, with and without listeners; the exclusion mechanism (context manager + flag) is discovered from the code",
          "Counters are incremented only in forward_message, once, before any exit, never for statistics messages; cleared only by their reporter after the copy with nothing forwarded in between; the timing table stores every counted type and module; the sub-messages of one MESSAGE_TRAFFIC report list every entry exactly once with its own count (10 table sizes; the loop is periodic in the chunk size).",
          "uint16 saturation of counts and interval timing are values/time and not decided.", "DESIGN.md §2 C18"),
 }
